@@ -238,7 +238,7 @@ INFO = {
     'functions': ['pl.logger.chronicle.append', 'pl.logger.chronicle.find', 'pl.logger.chronicle._load', 'pl.logger.chronicle._most_recent_first'],
     'bounds': {
         'quick': '2 entries, days from a pool of 6 (2024-02-27..03-02 across the leap day, and 2023-12-31), all times of day (second resolution), window bounds from the same pool or absent, limit in {None,1,2,3}, both outcomes',
-        'thorough': '3 entries, pool of 14 days across month/year ends and gaps, all times of day',
+        'thorough': '3 entries on the same 6-day pool (day assignments spanning <=3 pool positions), all times of day',
     },
     'assumptions': [
         'os/open/json as seen from chronicle are an in-memory file system; a history file holds the entry objects (JSON text rendering is outside the claim)',
@@ -252,7 +252,7 @@ INFO = {
 
 def obligations(tier):
     out = []
-    days = QUICK_DAYS if tier == 'quick' else THOROUGH_DAYS
+    days = QUICK_DAYS  # thorough: a third entry on the same pool (a 14-day pool with 3 entries ran >3 h and was withdrawn)
     ne = 2 if tier == 'quick' else 3
     nd = len(days)
     import itertools
